@@ -255,7 +255,8 @@ def _api_checks(m, out):
     except Exception as e:
         viol.append({"key": "C19/result-unknown-attribute-wrong-exception", "detail": {"exc": repr(e)}})
     # copies: later use of the optimiser (running it again, mutating its state) must not change the stored values
-    snap = {k: copy.deepcopy(r[k]) for k in ("x", "x0", "yval_vec", "ysd_vec", "fval", "fsd", "func_count", "mesh_size", "message")}
+    # (fields that are missing altogether have been reported above; the copy test covers those that exist)
+    snap = {k: copy.deepcopy(r[k]) for k in ("x", "x0", "yval_vec", "ysd_vec", "fval", "fsd", "func_count", "mesh_size", "message") if k in keys}
     if (out.get("ncalls") or 0) % 3 == 0:
         try:
             b.options["max_fun_evals"] = int(b.function_logger.func_count) + 25
